@@ -151,3 +151,47 @@ pub open spec fn nz_sink_added(subs0: Map<Tid, Term<Sub>>, subs1: Map<Tid, Term<
     &&& nz_is_sink_sub_term(subs1[nz_sink_sub()])
     &&& forall |k: Tid| #[trigger] subs0.contains_key(k) && k != nz_sink_sub() ==> subs1[k] == subs0[k]
 }
+
+// ---- positions of terms, uniqueness of term identifiers ------------------------------------------------------------------------
+
+/// where a term sits: the program, the function stored under key k, its block number i, def / jump number j of that block
+pub ghost enum NzPos {
+    Prog,
+    Sub(Tid),
+    Blk(Tid, int),
+    Def(Tid, int, int),
+    Jmp(Tid, int, int),
+}
+
+/// the position exists in the program
+pub open spec fn nz_pos_ok(subs: Map<Tid, Term<Sub>>, p: NzPos) -> bool {
+    match p {
+        NzPos::Prog => true,
+        NzPos::Sub(k) => subs.contains_key(k),
+        NzPos::Blk(k, i) => subs.contains_key(k) && 0 <= i < subs[k].term.blocks@.len(),
+        NzPos::Def(k, i, j) => subs.contains_key(k) && 0 <= i < subs[k].term.blocks@.len() && 0 <= j < subs[k].term.blocks@[i].term.defs@.len(),
+        NzPos::Jmp(k, i, j) => subs.contains_key(k) && 0 <= i < subs[k].term.blocks@.len() && 0 <= j < subs[k].term.blocks@[i].term.jmps@.len(),
+    }
+}
+
+/// the term identifier at a position
+pub open spec fn nz_tid_at(prog: Tid, subs: Map<Tid, Term<Sub>>, p: NzPos) -> Tid {
+    match p {
+        NzPos::Prog => prog,
+        NzPos::Sub(k) => subs[k].tid,
+        NzPos::Blk(k, i) => subs[k].term.blocks@[i].tid,
+        NzPos::Def(k, i, j) => subs[k].term.blocks@[i].term.defs@[j].tid,
+        NzPos::Jmp(k, i, j) => subs[k].term.blocks@[i].term.jmps@[j].tid,
+    }
+}
+
+/// PROPERTY CLAUSE "all term identifiers are unique": two positions (program, function, block, def, jump) with the same
+/// term identifier are the same position
+pub open spec fn nz_unique(prog: Tid, subs: Map<Tid, Term<Sub>>) -> bool {
+    forall |p: NzPos, q: NzPos| #[trigger] nz_pos_ok(subs, p) && #[trigger] nz_pos_ok(subs, q) && nz_tid_at(prog, subs, p) == nz_tid_at(prog, subs, q) ==> p == q
+}
+
+/// proof device: `owner` sends the tid of every position to that position (then the tids are unique)
+pub open spec fn nz_owner_of(owner: Map<Tid, NzPos>, prog: Tid, subs: Map<Tid, Term<Sub>>) -> bool {
+    forall |p: NzPos| #[trigger] nz_pos_ok(subs, p) ==> owner.contains_key(nz_tid_at(prog, subs, p)) && owner[nz_tid_at(prog, subs, p)] == p
+}
